@@ -61,11 +61,33 @@ func RunC18(tier string) int {
 		r := rng.Derive(uint64(run.Seed), stream, fmt.Sprint(i))
 		pf := spec.DefaultProfile()
 		pf.MinTargets, pf.MaxTargets, pf.EdgeProb = 4, 9, 30
+		// a quarter of the cases interrupts `grog test` (test targets and their dependency closure)
+		viaTest := r.Chance(1, 4)
+		pf.Tests = viaTest
 		s := spec.Gen(r, pf)
+		sel := e1.SelectionFor(s, nil, viaTest)
+		if viaTest && len(sel) < 2 {
+			viaTest = false
+			sel = e1.SelectionFor(s, nil, false)
+		}
+		grogCmd := "build"
+		if viaTest {
+			grogCmd = "test"
+			run.Count("interrupted_grog_test_invocations", 1)
+		}
+		var selected []*spec.Target
+		for _, t := range s.Targets {
+			if sel[t.Label()] {
+				selected = append(selected, t)
+			}
+		}
 		// one or two slow targets; everything else fast
 		nslow := 0
 		for _, t := range s.Targets {
-			if (nslow < 2 && r.Chance(1, 3)) || (nslow == 0 && t == s.Targets[len(s.Targets)-1]) {
+			if !sel[t.Label()] {
+				continue
+			}
+			if (nslow < 2 && r.Chance(1, 3)) || (nslow == 0 && t == selected[len(selected)-1]) {
 				t.SleepMs = 8000
 				t.TrapTerm = r.Chance(1, 2) // a command with a cleanup handler: its shell ignores TERM
 				nslow++
@@ -169,7 +191,7 @@ func RunC18(tier string) int {
 			}
 		}
 		start := time.Now()
-		res := env.M.Run([]string{"build"}, opts)
+		res := env.M.Run([]string{grogCmd}, opts)
 		wall := time.Since(start)
 		endMono := monoNow()
 		run.Eval(1)
@@ -239,8 +261,8 @@ func RunC18(tier string) int {
 			}
 		}
 		unfinished := 0
-		for _, t := range s.Targets {
-			if !strings.HasSuffix(t.Name, "test") && !completed[t.Label()] {
+		for _, t := range selected {
+			if !completed[t.Label()] {
 				unfinished++
 			}
 		}
@@ -282,7 +304,7 @@ func RunC18(tier string) int {
 		for _, t := range env.Spec.Targets {
 			t.SleepMs = 0 // sleeps are part of the command text: remove them for the follow-up (this changes every key: everything must run)
 		}
-		p2, obs2, vs, err := env.Step(e1.BuildOpts{}, e1.BuildCfg{EnableCache: true}, "after-interrupt", false)
+		p2, obs2, vs, err := env.Step(e1.BuildOpts{Cmd: grogCmd}, e1.BuildCfg{EnableCache: true}, "after-interrupt", viaTest)
 		if err != nil {
 			run.Infra(err.Error())
 			return
